@@ -10,10 +10,10 @@ import (
 // C10 / C20 (serving half) — Server.Serve / Close / DeletePeer / AddPeer while serving.
 
 type srvEnv struct {
-	s      *Server
-	pl     *monPlugin
-	lis    *symListener
-	remote netip.Addr
+	s        *Server
+	pl       *monPlugin
+	lis      *symListener
+	remote   netip.Addr
 	serveErr chan error
 	outConns []*symConn
 }
